@@ -20,7 +20,7 @@ CHECKS = {
          "Trusts the 6-line xor128 model and the crate's ==.", "3/C04"),
  "C05": ("PBT (proptest), stateful: random and block-boundary-focused operation histories (incl. >= 64 KiB fills, unaligned destinations) vs a projection model fed by a native-width twin; libFuzzer target fz_hist (thorough)",
          "Histories of next_u32/next_u64/fill_bytes(n) from every buffer index for 19 types + scripted JitterRng; each returned value is predicted from the twin's native word stream by projection rules written from the statement; final re-synchronisation catches skipped/repeated words.",
-         "The native stream comes from a twin instance of the same type (construction determinism is C10/C19's subject). The zero-length-fill case of Isaac64Rng is two-valued because the statement is silent.", "4/C05"),
+         "The native stream comes from a twin instance of the same type (construction determinism is C10/C19's subject). An empty fill_bytes ends the 'immediately following next_u32' window of Isaac64Rng (a call of a block generator) and is no call at all for the composition-defined generators (JitterRng keeps its half).", "4/C05"),
  "C06": ("PBT (proptest) + GF(2) algebra: jump()/long_jump() vs T^(2^(n/2)), T^(2^(3n/4)) with T extracted from the running code; all basis states + generated states + preimages of structured targets, linearity, metamorphic commutation",
          "The step matrix T is read off the real code on the n basis states; J and L by repeated squaring; jump/long_jump are executed on all basis states and on generated states and must land on J*s / L*s; linearity of jump on generated pairs extends the basis result to all states; model-free commutation relations in addition.",
          "Assumes GF(2)-linearity of next and jump outside the sampled states (BLR-sampled); state observation through validated serde images.", "5/C06"),
